@@ -44,6 +44,12 @@
                         the column to the CALLER'S frame, a later run on the same frame object finds it, does not rebuild
                         it and keeps the turnout as weights
 
+     FeedCopied         the client works on a COPY of the caller's feed frame (CombinedDataHandler copies it before the
+                        derived results columns are added); FALSE = the derived columns of a margin run (two-party
+                        results weights, margin) are written into the caller's frame, and a later turnout / party run
+                        handed the same frame object keeps them instead of its own weights (seeded changes C01_J,
+                        C09_J, C11_J, C12_J of round 6)
+
    The caller's baseline frame is an object that outlives a call (`proc.frame`: "pristine" or "worked" = an earlier
    margin run has left its columns in it); a new process loads a pristine frame.
    A national summary has its own argument tuple (weights / base / levels), independent of the arguments of the
@@ -52,9 +58,9 @@ EXTENDS Naturals, Sequences, FiniteSets, TLC
 
 CONSTANTS Estimators, ArgIds, DefaultArgIds, HashSeeds,
           SigmaSeeded, SplitSeeded, BootSeeded, FreshModelPerCall, DefaultsUntouched, OrderedIteration,
-          SummaryStateless, WeightsRebuilt
+          SummaryStateless, WeightsRebuilt, FeedCopied
 
-VARIABLES proc,     \* [id, hash, defaults, frame]   defaults = content of the default-argument objects; frame = the caller's baseline frame
+VARIABLES proc,     \* [id, hash, defaults, frame, feed]  feed = the caller's feed frame (same states as frame);   defaults = content of the default-argument objects; frame = the caller's baseline frame
           client,   \* [serial, model]        model = NoModel or [est, eff, draws, ran]
           entropy,  \* position of the process-global stream (monotone, never repeats, survives nothing)
           seen,     \* [key -> set of digests]
@@ -108,13 +114,14 @@ Digest(e, a, fresh) ==
     draws |-> DrawsOf(e, a, fresh),
     order |-> Order,
     weights |-> "-",
-    bweights |-> IF e = "bootstrap" THEN (IF ~WeightsRebuilt /\ proc.frame = "worked" THEN "turnout" ELSE "two party") ELSE "-" ]
+    bweights |-> IF e = "bootstrap" THEN (IF ~WeightsRebuilt /\ proc.frame = "worked" THEN "turnout" ELSE "two party") ELSE "-",
+    rweights |-> IF e \in Conformal THEN (IF ~FeedCopied /\ proc.feed = "worked" THEN "two party" ELSE "own") ELSE "-" ]
 
 \* the weights a summary with argument tuple sa effectively uses
 WeightsUsed(sa) == IF SummaryStateless \/ client.model.nat = "-" THEN sa ELSE client.model.nat
 NatDigest(sa) ==
   [ est |-> "summary", eff |-> client.model.eff, split |-> NoSrc, sigma |-> NoSrc,
-    draws |-> client.model.draws, order |-> Order, weights |-> WeightsUsed(sa), bweights |-> "-" ]
+    draws |-> client.model.draws, order |-> Order, weights |-> WeightsUsed(sa), bweights |-> "-", rweights |-> "-" ]
 
 Record(k, d) == seen' = [seen EXCEPT ![k] = @ \cup {d}]
 
@@ -129,7 +136,8 @@ GetEstimates(e, a, fresh) ==
                                         !.nat   = IF e = "bootstrap" /\ m.ran THEN @ ELSE "-"]]
      /\ entropy' = entropy + 3          \* whatever was read, the global stream never returns to an old position
      /\ proc' = [proc EXCEPT !.defaults = IF ~DefaultsUntouched /\ a \in DefaultArgIds THEN Append(@, "mutated") ELSE @,
-                              !.frame = IF e = "bootstrap" THEN "worked" ELSE @]   \* a margin run leaves its columns behind
+                              !.frame = IF e = "bootstrap" THEN "worked" ELSE @,   \* a margin run leaves its columns behind
+                              !.feed = IF e = "bootstrap" /\ ~FeedCopied THEN "worked" ELSE @]
      /\ Record(EstKey(e, a), d)
      /\ hist' = Append(hist, [op |-> "est", est |-> e, arg |-> a, sarg |-> "-", fresh |-> fresh])
 
@@ -146,14 +154,14 @@ NatSummary(sa) ==
 
 \* a new interpreter: new hash seed, pristine default objects, no client; entropy is NOT reset (it is entropy)
 NewProcess(h) ==
-  /\ proc' = [id |-> proc.id + 1, hash |-> h, defaults |-> Pristine, frame |-> "pristine"]
+  /\ proc' = [id |-> proc.id + 1, hash |-> h, defaults |-> Pristine, frame |-> "pristine", feed |-> "pristine"]
   /\ client' = FreshClient(client.serial + 1)
   /\ entropy' = entropy + 1
   /\ hist' = Append(hist, [op |-> "process", est |-> "-", arg |-> "-", sarg |-> "-", fresh |-> TRUE])
   /\ UNCHANGED seen
 
 HInit(h) ==
-  /\ proc = [id |-> 1, hash |-> h, defaults |-> Pristine, frame |-> "pristine"]
+  /\ proc = [id |-> 1, hash |-> h, defaults |-> Pristine, frame |-> "pristine", feed |-> "pristine"]
   /\ client = FreshClient(1)
   /\ entropy = 0
   /\ seen = [k \in Keys |-> {}]
